@@ -1490,7 +1490,7 @@ fn branch_cases() -> Vec<(&'static str, &'static str)> {
         ("21", "E1,H2:9,B3,R2:2,Q3:5,Q5:5,S1,S2,O,A1,N1:2,K2,E2,K7,Q3:6,Q5:6"),
         ("21", "H2:4369,H1:7,G2,G1,R2:2,Q4:5,R3:1,Q2:5,Q3:5"),
         // F4: restart before the flush / after a flush taken while the fabric was there
-        ("21", "E1,F,R2:2,X,S1,A0,P,A4,N4:2,S1"),
+        ("21", "E1,F,R2:2,X,S1,P,A5,N5:2,S1"),
         ("21", "A1,N1:2,E2,F,X,S1,P,A5,N5:3,S1,E3"),
         ("21", "A1,N1:2,E2,F,T,P,A5,N5:3,E3,K6,X,S1,S2"),
         // persisted subscriptions of a rolled back fabric
